@@ -352,7 +352,7 @@ theorem spec_sound (s : Srv) (routed : Bool) (r : Req) (res : AuthRes) (o : Obs)
   · cases hch : o.changed <;> simp only [hch, if_true, Bool.false_eq_true, if_false] at hs
     · by_cases h2 : (decide (200 ≤ o.status) && decide (o.status < 300)) = true
       · simp [h2] at hs
-      · simp only [h2, if_false] at hs
+      · simp only [h2] at hs
         refine ⟨rfl, rfl, ?_, ?_⟩
         · intro hh; apply h2; simp [hh.1, hh.2]
         · intro hr hv
